@@ -138,9 +138,11 @@ func checkC18(c *Ctx) {
 		c.Ob("C18.lazy", "-", "-", "once-initialised-globals-found", "-", len(inits) >= 16, "fewer lazily initialised globals recognised than confirmed by hand (8 twisted-Edwards curveParams + 8 mimcConstants)")
 	}
 	// ---- pooled objects
-	c.Rule("C18.pool", "POOL: an object obtained from a sync.Pool is completely redefined (whole store, clear, provably full copy, Reset/SetZero) before anything reads it; pooled big.Int scratch values are covered by C08.pool", 8)
+	c.Rule("C18.pool", "POOL: an object obtained from a sync.Pool is completely redefined (whole store, clear, provably full copy, Reset/SetZero) before anything reads it; a function that hands an object back to the pool (Put, also deferred) returns no memory of it (the object, a slice or pointer derived from it, the pointer-like result of a method on it); pooled big.Int scratch values are covered by C08.pool", 8)
 	{
 		sites, hits := pooledObjectsReadBeforeDefined(p, eff, libFuncs(p))
+		_, esc := pooledMemoryEscapes(p, libFuncs(p))
+		hits = append(hits, esc...)
 		c.Instance("C18.pool", sites)
 		reportFindings(c, p, "C18.pool", nil, hits, "")
 		c.Ob("C18.pool", "-", "-", "pool-gets-analysed", "-", sites > 0, "no sync.Pool.Get site found")
